@@ -41,20 +41,27 @@ static void run_C14(const Args &a, long cs) {
 		int nk = 2 * o + 2 + (int)r.below(d == dim ? 8 : 3);
 		s.order.push_back(o); s.knots.push_back(gen_knots(r, o, nk, r.coin(0.3) ? 0 : 1, 1.0, r.U() * 4 - 2, true)); tot *= (size_t)(nk - o - 1);
 	}
+	// strata with recorded findings: repeated knots in the convolved dimension (clamped ends or a doubled interior knot, as a previous convolution on a common grid
+	// leaves them), and kernels much narrower than the knot spacing
+	bool repeated = r.coin(0.06); bool narrow = !repeated && r.coin(0.08);
+	if (repeated) { auto &kk = s.knots[dim]; unsigned oo = s.order[dim]; if (oo >= 1 && kk.size() >= 2 * oo + 4) { if (r.coin(0.5)) { size_t i = oo + 1 + r.below(kk.size() - 2 * oo - 3); kk[i] = kk[i + 1]; } else for (unsigned i = 0; i < oo; i++) { kk[i] = kk[oo]; kk[kk.size() - 1 - i] = kk[kk.size() - 1 - oo]; } } else repeated = false; }
 	bool ones = r.coin(0.2);
 	s.coef.resize(tot); for (auto &c : s.coef) c = ones ? 1.f : (float)(r.U() - 0.3);
 	int n = r.range(2, 6); // kernel knots
-	std::vector<double> tau; { double y0 = -r.U(); double wscale = std::pow(10.0, r.U() * 2 - 1.3); bool sym = r.coin(0.3); for (int i = 0; i < n; i++) { tau.push_back(y0); y0 += (0.1 + r.U()) * wscale; } if (sym) { double c0 = 0.5 * (tau[0] + tau.back()); for (auto &t : tau) t -= c0; for (int i = 0; i < n / 2; i++) tau[n - 1 - i] = -tau[i]; if (n % 2) tau[n / 2] = 0; std::sort(tau.begin(), tau.end()); for (int i = 1; i < n; i++) if (!(tau[i] > tau[i - 1])) tau[i] = tau[i - 1] + 0.01 * wscale; } }
+	std::vector<double> tau; { double y0 = -r.U(); double wscale = std::pow(10.0, r.U() * 2 - 1.3); if (narrow) wscale = std::pow(10.0, -(double)r.range(3, 6)); bool sym = r.coin(0.3); for (int i = 0; i < n; i++) { tau.push_back(y0); y0 += (0.1 + r.U()) * wscale; } if (sym) { double c0 = 0.5 * (tau[0] + tau.back()); for (auto &t : tau) t -= c0; for (int i = 0; i < n / 2; i++) tau[n - 1 - i] = -tau[i]; if (n % 2) tau[n / 2] = 0; std::sort(tau.begin(), tau.end()); for (int i = 1; i < n; i++) if (!(tau[i] > tau[i - 1])) tau[i] = tau[i - 1] + 0.01 * wscale; } }
 	// the unit of the convolved axis: the convolution commutes with a change of unit, so the same table with nanosecond-sized or mega-sized coordinates must do as well
 	{ static const double units[] = {1, 1, 1, 1, 1, 1e-9, 1e-7, 1e-3, 1e3, 1e6}; double u = units[r.below(10)]; if (u != 1) { for (auto &kk : s.knots[dim]) kk *= u; for (auto &tt : tau) tt *= u; bool inc = true; for (size_t i = 1; i < s.knots[dim].size(); i++) if (!(s.knots[dim][i] > s.knots[dim][i - 1])) inc = false; for (int i = 1; i < n; i++) if (!(tau[i] > tau[i - 1])) inc = false; if (!inc) return; char b[32]; snprintf(b, sizeof b, "%g", u); count(std::string("axis-unit:") + b); } else count("axis-unit:1"); }
 	s.flavor = "conv";
 	Table T; if (!load(T, s)) { viol("C14:load:well-formed-table-rejected", s.full_json()); return; }
 	Table T2; load(T2, s);
 	unsigned o = s.order[dim]; int nk = (int)s.knots[dim].size();
+	if (repeated) count("tables-with-repeated-knots-in-the-convolved-dimension"); if (narrow) count("kernels-much-narrower-than-the-knot-spacing");
 	count("convolutions"); count("order:" + std::to_string(o)); count("kernel-knots:" + std::to_string(n)); count("ndim:" + std::to_string(nd)); if (ones) count("tables-all-ones");
 	std::string cj = "{\"dim\":" + std::to_string(dim) + ",\"kernel\":" + jarrd(tau) + ",\"table\":" + s.full_json() + "}";
 	phase_log("convolve"); context(cj);
 	try { T.convolve((uint32_t)dim, tau.data(), (size_t)n); } catch (std::exception &e) { viol("C14:convolve:threw-on-valid-input", "{\"what\":" + jstr(e.what()) + ",\"case\":" + cj + "}"); return; }
+	{ bool fin = true; const float *cc = T.get_coefficients(); for (uint64_t i = 0; i < T.get_ncoeffs(); i++) if (!std::isfinite(cc[i])) fin = false;
+	  if (!fin) { viol(repeated ? "C14:convolve:non-finite-coefficients:repeated-knots-in-the-convolved-dimension" : "C14:convolve:non-finite-coefficients", cj); return; } }
 	// structure
 	std::string wf = wellformed(T); if (!wf.empty()) { viol("C14:convolve:result-not-well-formed:" + wf, cj); return; }
 	if (T.get_order(dim) != o + (unsigned)n - 1) viol("C14:convolve:order-not-raised-by-n-1", cj);
@@ -63,6 +70,12 @@ static void run_C14(const Args &a, long cs) {
 	for (int d = 0; d < nd; d++) if (d != dim) { bool same = T.get_order(d) == s.order[d] && T.get_nknots(d) == s.knots[d].size() && T.get_ncoeffs(d) == (uint64_t)s.naxes(d); for (size_t i = 0; same && i < s.knots[d].size(); i++) if (!biteq(s.knots[d][i], T.get_knot(d, i))) same = false; if (!same) { viol("C14:convolve:other-dimension-changed", cj); return; } }
 	// C wrapper gives the same table
 	{ splinetable h; h.data = &T2; phase_log("C:splinetable_convolve"); int rc = splinetable_convolve(&h, dim, tau.data(), (size_t)n); if (rc != 0 || !(T2 == T)) viol("C14:C:splinetable_convolve:differs-from-C++", cj); count("C-wrapper-comparisons"); }
+	// the kernel knots may be knots of the table itself
+	if (cs % 5 == 0) { int dA = (int)r.below(nd); size_t nA = s.knots[dA].size(); int na = r.range(2, (int)std::min<size_t>(4, nA)); size_t off = r.below(nA - na + 1); bool inc = true; for (int i = 1; i < na; i++) if (!(s.knots[dA][off + i] > s.knots[dA][off + i - 1])) inc = false;
+		if (inc && s.order[dim] + na <= 6) { Table A1, A2; load(A1, s); load(A2, s); std::vector<double> kc(s.knots[dA].begin() + off, s.knots[dA].begin() + off + na); phase_log("convolve with the table's own knots as kernel");
+			bool t1 = false, t2 = false; try { A1.convolve((uint32_t)dim, A1.get_knots(dA) + off, (size_t)na); } catch (std::exception &) { t1 = true; } try { A2.convolve((uint32_t)dim, kc.data(), (size_t)na); } catch (std::exception &) { t2 = true; }
+			bool same = t1 == t2; if (same && !t1) { same = A1 == A2; for (int d = 0; d < nd && same; d++) if (!biteq(A1.lower_extent(d), A2.lower_extent(d)) || !biteq(A1.upper_extent(d), A2.upper_extent(d))) same = false; }
+			if (!same) viol("C14:convolve:result-depends-on-whether-the-kernel-aliases-the-table's-own-knots", cj); count("aliasing-kernel-comparisons"); } }
 	// values: quadrature oracle along the convolved dimension, other coordinates fixed
 	double lo = T.get_knot(dim, 0), hi = T.get_knot(dim, T.get_nknots(dim) - 1);
 	int npts = a.tier == "thorough" ? 60 : 30; if (tot > 3000) npts /= 3;
@@ -104,7 +117,8 @@ static void run_C14(const Args &a, long cs) {
 		if (!(ratio <= K_CONV)) {
 			bool neg = fabsl((LD)lib + S) <= K_CONV * ldexpl(1, -24) * M + floor_;
 			std::string dj = "{\"lib\":" + jnum(lib) + ",\"integral\":" + jnum((double)S) + ",\"M\":" + jnum((double)M) + ",\"ratio_to_2^-24M\":" + jnum(ratio) + ",\"x\":" + jarrd(x) + ",\"order_class\":" + jstr(cls) + ",\"order+kernelknots\":" + std::to_string((int)o + n) + ",\"case\":" + cj + "}";
-			if (neg) viol("C14:convolve:value-is-the-negative-of-the-convolution-integral", dj);
+			if (narrow) viol("C14:convolve:accuracy-below-single-precision:kernel-much-narrower-than-the-knot-spacing", dj); // recorded finding: same cancellation as for high orders, driven by the ratio of the two spacings
+			else if (neg) viol("C14:convolve:value-is-the-negative-of-the-convolution-integral", dj);
 			else if (lowstratum) viol(std::string("C14:convolve:value-differs-from-convolution-integral:") + (o == 0 ? "order0" : "order+kernelknots<=6"), dj);
 			// gross = beyond 12% of the larger of the local magnitude and max|c| (the convolution with a unit-area kernel is bounded by max|c|): the recorded
 			// instability is an absolute error on the scale of the coefficients, so near the ends of the range, where the local magnitude tends to zero, it is
